@@ -22,6 +22,9 @@ def parse_string(input_string):
         except SyntaxError as e:
             raise SyntaxError(loc=line_loc + e.loc_start,
                               msg=e.msg)
+        except RecursionError:
+            raise SyntaxError(loc=line_loc,
+                              msg='Expression too complex')
 
         # the line is always a list of one containing the actual Line
         # node
